@@ -368,6 +368,35 @@ class World:
                     r.pop()
             elif isinstance(r, dict):
                 r.clear()
+        elif k == "derived":
+            # a query that builds a derived copy; the original must not notice.  Answer: the paths of the result
+            how = op[2]
+            ans = None
+            try:
+                if how == "with_paths":
+                    d = obj.with_paths([tuple(p) for p in op[3]])
+                elif how == "without_paths":
+                    d = obj.without_paths([tuple(p) for p in op[3]])
+                elif how == "copy_freeze":
+                    d = obj.copy()
+                    d.freeze()
+                elif how == "copy_unfreeze":
+                    d = obj.copy()
+                    d.unfreeze()
+                elif how == "partial":
+                    d = obj.mapper_from_partial_prior_arguments({p: p for p in list(obj.priors)[:1]})
+                elif how == "replacing":
+                    d = obj.replacing({p: p for p in list(obj.priors)[:1]})
+                elif how == "without_attributes":
+                    d = obj.without_attributes()
+                else:
+                    raise ValueError(how)
+                self.keep.append(d)
+                if how in ("with_paths", "without_paths", "copy_freeze", "copy_unfreeze"):
+                    ans = [[list(pth), self.leaf(x)] for pth, x in d.path_priors_tuples]
+            finally:
+                extra["flags"] = [bool(getattr(o, "_is_frozen", False)) for o in self.objs]
+            return ans, extra
         elif k == "derive":
             try:
                 self.keep.append(obj.mapper_from_prior_arguments({p: p for p in obj.priors}))
@@ -425,7 +454,7 @@ def run_ops(w, case, rc, shadows):
             rec["msg"] = str(e)[:160]
             if op[0] == "query":
                 rec["ctor"] = w.last_ctor
-            if op[0] == "derive":
+            if op[0] in ("derive", "derived"):
                 rec["flags"] = [bool(getattr(o, "_is_frozen", False)) for o in w.objs]
         if op[0] == "query" and shadows:
             rec["shadow"] = w.shadow(w.objs[op[1]], op[2])
@@ -439,12 +468,25 @@ def run_ops(w, case, rc, shadows):
     return {"outs": outs, "frozen": frozen, "comp": comp, "stale_recursion_entries": left}
 
 
+def probe():
+    """which variant of the code is running: does a frozen model hand out the list held in its cache, or a copy?"""
+    class Probe:
+        def __init__(self, a=0.0):
+            self.a = a
+    m = Collection(g=Model(Probe, a=af.UniformPrior(lower_limit=0.0, upper_limit=1.0)))
+    m.freeze()
+    one, two = m.path_instance_tuples_for_class(Prior), m.path_instance_tuples_for_class(Prior)
+    d1, d2 = m.g.direct_tuples_with_type(Prior), m.g.direct_tuples_with_type(Prior)
+    return {"cache_copies": (one is not two) and (d1 is not d2) and one == two}
+
+
 def main():
     cases = json.load(open(sys.argv[1]))["cases"]
     out = []
+    pr = probe()
     for c in cases:
         try:
-            out.append(run_case(c))
+            out.append(dict(run_case(c), probe=pr))
         except BaseException as e:  # noqa
             import traceback
             out.append({"driver_error": traceback.format_exc()[-1500:]})
